@@ -404,7 +404,7 @@ func genWriteReq(r *rand.Rand, allowInvalid bool, cur []Tuple) *WriteEv {
 // crash point (child process killed with SIGKILL, database file reopened).
 func C12(run *Run) {
 	ctx := context.Background()
-	if run.Replay != "" {
+	if run.Replay != "" && replayHasHistory(run.Replay) {
 		replayStore(run)
 		return
 	}
